@@ -255,6 +255,11 @@ func c08Scenarios(thorough bool) []c08Scenario {
 			threads: [][]string{{"dec:A"}, {"dec:A"}, {"dec:B"}}},
 		c08Scenario{name: "H6-session-churn", spec: SpecDefault, parts: []string{"A"},
 			threads: [][]string{{"enc:A", "dec:A"}, {"sess:A"}, {"sess:B"}}},
+		// policy corners: caching switched off together with a shared intermediate-key cache; system keys only
+		c08Scenario{name: "H6-session-churn-nocache+sharedik", spec: PolicySpec{Name: "nocache+shared-ik", NoCache: true, SharedIK: true}, parts: []string{"A"},
+			threads: [][]string{{"enc:A", "dec:A"}, {"sess:A"}, {"sess:B"}}},
+		c08Scenario{name: "H6-session-churn-skonly+sharedik", spec: PolicySpec{Name: "sk-only+shared-ik", CacheSK: true, SharedIK: true}, parts: []string{"A"},
+			threads: [][]string{{"enc:A", "dec:A"}, {"sess:A"}, {"sess:B"}}},
 		c08Scenario{name: "H6-session-cache", spec: SpecSessions("slru", 1), parts: []string{"A"},
 			threads: [][]string{{"dec:A"}, {"sess:B"}}},
 		// a failed decrypt (tampered record) next to users of the same cached key: the failure must not release the key twice
